@@ -39,8 +39,13 @@ RULES = {
     "relies on `copy.deepcopy(value.type)` / `shape.copy()` to give the clone objects of its own, and `def __deepcopy__(self, memo): "
     "return self` on the tensor types makes every clone share its types with the original, so `clone_value.dtype = …` re-types the "
     "original (a functionalized pass alters its input)",
+    "R10": "no container of the source moves into the clone by assignment: in the cloner (and the clone methods of the core classes), a store "
+    "`<new>.<field> = <old>.<field>` of one and the same field between two different objects is never made for a field that the package "
+    "initialises as a mutable container (`self.<field> = set()` / `{}` / `[]` / `dict(...)` … in a constructor) - the new object is a new "
+    "object, but the set or dict inside it is then the original's: marks added or cleared on one copy (the invalidated keys of a metadata "
+    "store) appear on the other, so a functionalized pass alters its input model",
 }
-FLOORS = {"R1": 26, "R2": 30, "R3": 2, "R4": 1, "R5": 2, "R6": 1, "R7": 7, "R8": 1, "R9": 3}
+FLOORS = {"R1": 26, "R2": 30, "R3": 2, "R4": 1, "R5": 2, "R6": 1, "R7": 7, "R8": 1, "R9": 3, "R10": 5}
 EXPLANATION = (
     "A sharing analysis over the cloner and the clone() methods: each data flow original.field → clone is classified "
     "by the mutability of the field's declared class (computed from the source: setters, __setitem__, self-stores) "
@@ -784,8 +789,50 @@ def rule_r9(ctx):
     ctx.require(n >= 20, f"only {n} classes of the IR core examined")
 
 
+def rule_r10(ctx):
+    repo = ctx.repo
+    # fields that some constructor of the package binds to a fresh mutable container
+    mutable: dict[str, str] = {}
+    for m in repo.pkg_modules():
+        for k in m.classes.values():
+            init = k.methods.get("__init__")
+            if init is None or isinstance(init.node, ast.Lambda) or not init.params:
+                continue
+            me = init.params[0]
+            for a in own_nodes(init.node):
+                if isinstance(a, (ast.Assign, ast.AnnAssign)) and getattr(a, "value", None) is not None:
+                    v = a.value
+                    fresh = isinstance(v, (ast.Set, ast.Dict, ast.List, ast.SetComp, ast.DictComp, ast.ListComp)) or (
+                        isinstance(v, ast.Call) and (dotted_of(v.func) or "").split(".")[-1] in ("set", "dict", "list", "defaultdict", "OrderedDict", "Counter", "deque"))
+                    if not fresh:
+                        continue
+                    for t in (a.targets if isinstance(a, ast.Assign) else [a.target]):
+                        if isinstance(t, ast.Attribute) and norm(t.value) == me:
+                            mutable.setdefault(t.attr, k.name)
+    n = 0
+    funcs = [f for f in repo.module("onnx_ir._cloner").all_funcs] + [f for f in repo.module("onnx_ir._core").all_funcs if f.name in ("clone", "__copy__", "__deepcopy__", "copy")]
+    for f in funcs:
+        if isinstance(f.node, ast.Lambda):
+            continue
+        for a in own_nodes(f.node):
+            if not (isinstance(a, ast.Assign) and len(a.targets) == 1 and isinstance(a.targets[0], ast.Attribute)):
+                continue
+            n += 1
+            t, v = a.targets[0], a.value
+            shared = isinstance(v, ast.Attribute) and v.attr == t.attr and norm(v.value) != norm(t.value) and t.attr in mutable
+            ctx.check("R10", f"{f.local}: `{norm(a)[:60]}` does not hand a container of the source to the clone", not shared, f, a,
+                      f"`{norm(a)[:70]}` stores the source's own `{t.attr}` - which {mutable.get(t.attr, '')}.__init__ creates as a mutable container - in the new object: both copies now "
+                      "add to and clear one and the same container, so an edit of the clone (re-validating or invalidating a metadata key, adding an entry) shows on the original - "
+                      "a functionalized pass alters its input",
+                      how="attribute stores `<a>.<f> = <b>.<f>` in the cloner / clone methods × fields bound to a fresh mutable container in a constructor of the package",
+                      construct=f"container {t.attr} shared by assignment")
+    ctx.require(n >= 5, f"only {n} attribute stores found in the cloner")
+
+
 def run(ctx):
     from . import c03, c18
+
+    rule_r10(ctx)
 
     rule_r9(ctx)
 
